@@ -570,7 +570,23 @@ theorem C29_conflict_detection_sound : ∀ (firsts : List (List FI)) (i j : Nat)
       simp only [stopsOf, List.getElem?_cons_succ] at hs hi hj
       exact ih i' j' me nx hs (by omega) hi hj m hm x hx t hmt hxt
 
+/-! ## the match succeeds or fails (it does not panic) -/
+
+/-- For matcher trees as `tpl/cl` builds them (`stopsLen`: one `stops` entry per option) and
+token lists as the scanner yields them (`toksOk`: `STRING` tokens carry their text), no index
+expression of any `Match` method goes out of range: the outcome is never a panic. -/
+theorem C29_never_panics (c : Cx α) (henv : c.env.stopsLen = true) (htoks : toksOk c.toks = true)
+    (f : Nat) (g : G) (hg : g.stopsLen = true) (i : Nat) (hi : i ≤ c.N) :
+    (matchF c f g i).1 ≠ .abort .panic :=
+  matchF_no_panic c henv htoks f g i hi hg
+
+/-- … in particular for a rule reference at the start of the input (`Compiler.Match`). -/
+theorem C29_match_never_panics (c : Cx α) (henv : c.env.stopsLen = true) (htoks : toksOk c.toks = true)
+    (f : Nat) (doc : Bytes) : (matchTop c f doc).res ≠ .abort .panic :=
+  matchF_no_panic c henv htoks f (.var doc) 0 (Nat.zero_le _) rfl
+
 /-! ## Non-vacuity and the README examples -/
+namespace Ex29
 
 def kIDENT : Nat := 4
 def kINT : Nat := 5
@@ -611,8 +627,11 @@ example : (matchF (cxOf [] [⟨kIDENT, bA, 1, 2⟩, ⟨kIDENT, bA, 3, 4⟩]) 10
     (.choice [.seq [.lit kIDENT bA, .tok kINT lblINT], .lit kIDENT bA] [false, true]) 0).1
     matches .ok 1 (.tok 0) := by decide
 example : stopsOf [[.lit kIDENT bA], [.lit kIDENT bA]] = [false, true] := by decide
+example : toksOk toksList = true ∧ (G.choice [.lit kIDENT bA, .lit kIDENT bA] [false, true]).stopsLen = true := by decide
 /-- The keyword/class asymmetry of `C29_conflict_detection_sound`: `"a" | IDENT` sets `stops[0]`. -/
 example : stopsOf [[.lit kIDENT bA], [.tok kIDENT]] = [true, true] ∧
     stopsOf [[.tok kIDENT], [.lit kIDENT bA]] = [false, true] := by decide
+
+end Ex29
 
 end GopModel.Tpl
